@@ -149,6 +149,10 @@ RX_FAMILIES = {
     "look_ahead": ("(?=(a+)+b)", "a"),
     "look_ahead_alt": ("x*(?=(a|aa)+b)", "a"),
     "look_behind": ("(?<=(a+)+b)c", "a"),
+    # the lookbehind is reached only at the end of the subject, where one main step retries the
+    # catastrophic body from every earlier position
+    "look_behind_late": ("x(?<=(a+)+b)", "a"),
+    "neg_look_behind_late": ("x(?<!(a+)+b)y", "a"),
     "neg_look_ahead": ("(?!(a+)+b)z", "a"),
     "dot_star": ("(.*)*b", "a"),
 }
@@ -173,7 +177,7 @@ def _regex_stmt(c, p):
     build = p["rx_build"]
     n = 3 if c else p.get("rx_n", 26)
     pat, ch = RX_FAMILIES[fam]
-    subj = json.dumps(ch * n + ("c" if fam == "look_behind" else ""))
+    subj = json.dumps(ch * n + {"look_behind": "c", "look_behind_late": "x", "neg_look_behind_late": "x"}.get(fam, ""))
     if fam == "look_behind":
         # lookbehind is tried at every position; put the `c` at the end so it runs late
         pass
